@@ -141,6 +141,69 @@ def run(prog, rep, tier, repo):
         else:
             rep.undecided('vandermonde-order', key, 'construction idiom not read (no single push of a power in a two-level counting nest)', site_of(f.body), proof=False)
     rep.floor('vandermonde-order', 1, 'vandermonde')
+    # ---- every row of the design matrix has exactly n entries, for every n >= 1 (degree 0 included): the pushes of one iteration of the row
+    # loop are counted -- those outside inner loops once, those inside an inner counting loop max(0, hi - lo) times -- and compared with n
+    # on exact witnesses (a construction that pushes x^0 and x^1 by hand and loops from 2 gives two entries for n = 1)
+    f = prog.func('linalg::utils::vandermonde')
+    key = 'row-length:vandermonde'
+    if f is not None:
+        from ..precond import tev as _tev, Frame as _Frame, Uneval as _Uneval, _nk as _nk_
+        n_arg = ('arg', 2, f.names.get(2))
+        pushes_ = [c for c in f.calls() if c.path and short(c.path) == 'push']
+        loops_ = sorted([li for li in f.loop_info() if li['item'] is not None], key=lambda li: -len(li['blocks']))
+        outer = loops_[0] if loops_ else None
+        unread = None
+        if outer is None or not pushes_ or any(c.bb not in outer['blocks'] for c in pushes_) or len({c.args[0] for c in pushes_}) != 1:
+            unread = 'pushes are not all inside one row loop on one buffer'
+        else:
+            latches = [p_ for p_ in f.cfg.pred[outer['header']] if p_ in outer['blocks']]
+            inner = [li for li in loops_[1:] if li['blocks'] < outer['blocks']]
+            parts = []          # (multiplicity range or None, count)
+            for c in pushes_:
+                encl = [li for li in inner if c.bb in li['blocks']]
+                if len(encl) > 1:
+                    unread = 'push inside nested inner loops'
+                    break
+                if encl:
+                    li = encl[0]
+                    ilatches = [p_ for p_ in f.cfg.pred[li['header']] if p_ in li['blocks']]
+                    if tag(li['iter']) not in ('range', 'rangeincl') or not all(f.cfg.dominates(c.bb, lt) for lt in ilatches):
+                        unread = 'inner loop is not a counting range executed unconditionally'
+                        break
+                    parts.append((li['iter'], 1))
+                else:
+                    if not all(f.cfg.dominates(c.bb, lt) for lt in latches):
+                        unread = 'a push of the row loop is conditional'
+                        break
+                    parts.append((None, 1))
+        if unread:
+            rep.undecided('row-length', key, unread, site_of(f.body), proof=False)
+        else:
+            bad = None
+            try:
+                for n0 in (1, 2, 3, 4, 7):
+                    ctx = _Frame(f, env={_nk_(n_arg): n0})
+                    tot = 0
+                    for rng, cnt in parts:
+                        if rng is None:
+                            tot += cnt
+                        else:
+                            lo, hi = _tev(rng[1], ctx), _tev(rng[2], ctx)
+                            tot += cnt * max(0, hi - lo + (1 if tag(rng) == 'rangeincl' else 0))
+                    if tot != n0:
+                        bad = (n0, tot)
+                        break
+            except _Uneval as ex:
+                rep.undecided('row-length', key, 'loop bounds not evaluated (%s)' % str(ex)[:40], site_of(f.body), proof=False)
+                bad = 'unread'
+            if bad == 'unread':
+                pass
+            elif bad:
+                rep.viol('row-length', key, 'vandermonde(x, %d) pushes %d entries per row: the design matrix of a degree-%d fit must have %d column(s), so the shapes '
+                         'of the normal equations no longer match (fit panics or mis-reads the matrix)' % (bad[0], bad[1], bad[0] - 1, bad[0]), site_of(f.body))
+            else:
+                rep.ok('row-length', key, 'each row receives exactly n entries for n = 1, 2, 3, 4, 7')
+    rep.floor('row-length', 1, 'vandermonde')
     # which entries of the design matrix are written must not depend on the abscissae (e.g. skipping rows with x == 0 leaves the x^0 column 0)
     from . import c15
     c15.d8_oblivious(prog, rep, only=['linalg::utils::vandermonde'], rule='design-oblivious')
